@@ -22,7 +22,10 @@ what such a checker would still overlook; round 4 was told the same about the wi
 kind of slip; round 5 was told about the round-4 widenings as well and asked to prefer realistic
 conditions over rare ones; round 6 was asked for maintenance-type mistakes (refactors,
 vectorisation, API tidy-ups, shortcuts, caches, dtype hygiene) in code paths the earlier rounds
-had not touched. Every change was confirmed before being kept: the patch applies, the library
+had not touched; round 7 was given, besides the property, a one-line summary of every earlier
+change to its property (file touched and what it did, nothing about the checks) and asked for
+mechanisms not yet used: state that survives between calls, caches with incomplete keys,
+two sites that must agree. Every change was confirmed before being kept: the patch applies, the library
 imports, the demonstration exits non-zero with the change and zero without, and all 1848
 baseline-passing tests still pass with it (`tools/eval_mutation.py`, scratch worktree under
 /tmp, removed afterwards). The checks are run against each change applied to /repo itself
